@@ -375,7 +375,7 @@ META = dict(
                 "disjointness, bounds, scratch sizing and absence of int overflow for every team size and problem size in the bounds; (B) per-iteration read/write footprints of the work-shared "
                 "loops from clang's -fopenmp IR (see c10_races)",
     functions=['fast_sdmx.c SDMXylm_loop + sph_harm.c recursive_sph_harm / setup_sph_harm_buffer (races/sdmx_ylm_loop)', "fast_sdmx.c: SDMXcontract_ao_to_bas(_bwd/_grid/_grid_bwd/_l1/_l1_bwd) block partition", "conv_interpolation.c: contract_grad_terms_parallel partition and per-thread scratch",
-               "part B (-fopenmp IR, footprints): cider_coefs.c cider_coefs_gto/vk1/spline_gq/qg, cider_ind_etb/zexp, smooth_cider_exponents; model_utils.c evaluate_se_kernel/_antisym/_spin/_spin_v2; cider_grids.c reduce_angc_to_ylm/reduce_ylm_to_angc; convolutions.c contract_rad_to_orb/contract_orb_to_rad, "
+               "part B: convolutions.c atc_reciprocal_convolution (direct call on symbolic buffers)", "part B (-fopenmp IR, footprints): cider_coefs.c cider_coefs_gto/vk1/spline_gq/qg, cider_ind_etb/zexp, smooth_cider_exponents; model_utils.c evaluate_se_kernel/_antisym/_spin/_spin_v2; cider_grids.c reduce_angc_to_ylm/reduce_ylm_to_angc; convolutions.c contract_rad_to_orb/contract_orb_to_rad, "
                "multiply_atc_integrals(_vk); conv_interpolation.c project_conv_to_spline/project_spline_to_conv, fill_l1_coeff_fwd/bwd, compute_mol_convs_single_new, compute_pot_convs_single_new, add_lp1_term_fwd/bwd, "
                "add_lp1_onsite_new_fwd/bwd (through LCAOInterpolator(Direct).project_orb2grid/project_grid2orb); fast_sdmx.c SDMXcontract_ao_to_bas_l1/_l1_bwd, _grid/_grid_bwd, contract_shl_to_alpha_l1/_bwd; cider_fft.c write_fft_input/read_fft_output"],
     bounds=dict(part_B="loops of <= 8 iterations (<= 12 for the orbital-to-grid pair) at the C05/C11/C20 harness sizes; one virtual thread per iteration; every pair of iterations compared per barrier phase", team_size="1 <= T <= %d" % T_MAX, problem_size="0 <= ngrids <= 2^31 - 1 - %d (incl. ngrids < T and T not dividing ngrids)" % T_MAX, natm="1..4096 (scratch queries)"),
